@@ -27,13 +27,17 @@ use crate::{
 
 type Result<T> = std::result::Result<T, SchemeError>;
 
-pub trait RealNumberInternalTrait: Display + Debug + Real + Default + 'static
+pub trait RealNumberInternalTrait:
+    Display + Debug + Real + Default + std::str::FromStr + 'static
 where
     Self: std::marker::Sized,
 {
 }
 
-impl<T: Display + Debug + Real + Default + 'static> RealNumberInternalTrait for T {}
+impl<T: Display + Debug + Real + Default + std::str::FromStr + 'static> RealNumberInternalTrait
+    for T
+{
+}
 #[derive(Debug, Clone, Copy)]
 pub enum Number<R: RealNumberInternalTrait> {
     Integer(i32),
